@@ -25,7 +25,7 @@ DOC = {
  "C15.R4": "both RateLimited arms in the factory record the stat, call the handler with RateLimited and reject the job",
  "C15.R5": "hooks: on_factory_started only from post_start, on_factory_draining only from the drain handler after the Draining store, on_factory_stopped only from post_stop; is_drained = all workers available and queue empty; stop only when drained",
  "C15.R7": "dead workers replaced: replace_worker in the factory's supervision handler is conditioned only on the event kind, the actor->wid index lookup, the pool lookup and the spawn result (no filter on the slot id); pool <-> actor index pairing: every removal from the worker pool is followed on every (value-present) path by the removal of that worker's actor id from the actor->wid index, every pool insertion by an index insertion",
- "C15.R6": "dispatch while draining discards with Shutdown and rejects; resize: 0 returns early, new size = min(MAX, requested), shrink marks busy workers draining",
+ "C15.R6": "UpdateSettings hands the new discard handler / discard settings to every worker unconditionally and from the request's value; dispatch while draining discards with Shutdown and rejects; resize: 0 returns early, new size = min(MAX, requested), shrink marks busy workers draining",
 }
 
 
@@ -473,7 +473,51 @@ def c_id(c):
     return c.fn.id
 
 
+def settings_reach_workers(run, db):
+    """UpdateSettings: what the factory stores for itself it also hands to every worker of the pool -- the per-worker copy of the
+    discard handler / discard settings is written for every worker whenever the request carries a value (no further condition),
+    and it derives from the request's value, not from the factory's previous one"""
+    fs_ = [f for f in db.crate_fns("ractor") if re.search(r"FactoryState::<.*>::update_settings(::\{closure#0\})?$", f.id) and f.blocks]
+    fs_ = [f for f in fs_ if any(True for _ in f.stmts())]
+    n = 0
+    for f in fs_:
+        thr = lambda c: 0 if c.matches(r"Clone>::clone$|get_worker_settings$") else None
+        for site, st in f.stmts():
+            if st["k"] != "assign":
+                continue
+            names = [proj_field_name(e) for e in st["lhs"][1] if e.startswith("f:")]
+            if not names or names[-1] not in ("discard_handler", "discard_settings") or "WorkerProperties" not in (f.local_ty(st["lhs"][0]) or ""):
+                continue
+            n += 1
+            fld = names[-1]
+            extra = []
+            for s2, t in f.switches():
+                info = f.switch_info(s2)
+                dom = [lab for lab, tgt in (info.get("edges") or {}).items() if f.edge_dominates_plain((s2.bb, tgt), site)]
+                if not dom:
+                    continue
+                rr = f.origins(info["disc_place"]) if info.get("disc_place") else f.origins(t["discr"])
+                ok = info.get("kind") == "enum" and (info.get("disc_adt") or "").endswith("option::Option") and rr and all(
+                    r["k"] in ("upvar", "arg") or (r["k"] == "call" and r["call"].matches(r"Iterator::next$|::next$")) for r in rr)
+                if not ok:
+                    extra.append("%s edge of a test on %s" % ("/".join(dom), sorted(set(r["call"].name.split("::")[-1] if r["k"] == "call" else r["k"] for r in rr)) or "?"))
+            run.check(not extra, "update-settings|%s-reaches-every-worker" % fld, "the workers' %s is updated whenever the request carries one (only the request's Option and the pool iteration guard the store)" % fld,
+                      "the workers' copy of %s is updated only under an extra condition (%s): workers keep the previous value while the factory reports the new one (e.g. a sticky-queuer worker discards expired jobs from its private queue through a retired handler, or not at all)" % (fld, extra), f.where(st.get("l")))
+            if st["rv"]["k"] == "use":
+                roots = f.origins(st["rv"]["op"], through=thr)
+                stale = [r for r in roots if r["k"] in ("upvar", "arg") and not any(e.startswith("d:") and e.endswith(":Some") for e in r.get("proj", []) + r.get("trail", []))]
+                run.check(bool(roots) and not stale, "update-settings|%s-from-request" % fld, "the value handed to the workers derives from the request's payload (or is a constant)",
+                          "the value handed to the workers as %s is read from the factory's own state, not from the request (%s): the workers receive the settings that were in force *before* the update -- a new limit is not enforced, a changed mode sheds the wrong jobs" % (
+                              fld, [[proj_field_name(e) for e in r.get("proj", []) if e.startswith("f:")] for r in stale]), f.where(st.get("l")))
+    run.anchor("per-worker settings stores in update_settings", n, 2)
+
+
 def r6(run, db):
+    settings_reach_workers(run, db)
+    _r6(run, db)
+
+
+def _r6(run, db):
     d = fs(db, "dispatch")
     run.saw(len(d.blocks), d)
     eqs = [t_ for t_ in enum_const_tests(d, "DrainState") if t_["variant"] == "NotDraining"]
